@@ -522,19 +522,23 @@ def resolve_key(key, doc):
     return next(iter(iter_key_candidates(key, doc)), NOTHING)
 
 
-def resolve_sort_key(key, doc):
-    value = resolve_key(key, doc)
-    # see http://docs.mongodb.org/manual/reference/method/cursor.sort/#ascending-descending-sort
-    if value is NOTHING:
+def resolve_sort_key(key, doc, reverse=False):
+    # see https://docs.mongodb.com/manual/reference/bson-type-comparison-order/#arrays
+    # A missing field sorts as null; an array is sorted by its smallest value, or by its
+    # largest one when sorting in descending order; an empty array sorts before null.
+    sort_keys = []
+    for value in iter_key_candidates(key, doc):
+        if value is NOTHING:
+            sort_keys.append((1, BsonComparable(None)))
+        elif isinstance(value, (tuple, list)):
+            if not value:
+                sort_keys.append((0, BsonComparable(None)))
+            sort_keys.extend((1, BsonComparable(item)) for item in value)
+        else:
+            sort_keys.append((1, BsonComparable(value)))
+    if not sort_keys:
         return 1, BsonComparable(None)
-
-    # List or tuples are sorted solely by their first value.
-    if isinstance(value, (tuple, list)):
-        if not value:
-            return 0, BsonComparable(None)
-        return 1, BsonComparable(value[0])
-
-    return 1, BsonComparable(value)
+    return max(sort_keys) if reverse else min(sort_keys)
 
 
 class BsonComparable(object):
